@@ -47,12 +47,12 @@ def hang_violations(F: Facts, prop):
 def c01(F: Facts):
     out = []
     for (bus, ev), seq in F.accepted.items():
-        hs = F.matching_handlers(bus, ev)
-        for hi in hs:
+        must = set(F.matching_handlers(bus, ev, registered_before=seq))  # registered when the event was accepted
+        for hi in F.matching_handlers(bus, ev):
             n = len(F.enters.get((bus, ev, hi), ()))
             if n > 1:
                 out.append(V('C01', 'duplicate', (bus, ev, hi), n=n))
-            elif n == 0 and F.settled and not F.bus_stopped_before(bus):
+            elif n == 0 and hi in must and F.settled and not F.bus_stopped_before(bus):
                 # a child whose processing was interrupted by its (grand)parent handler's timeout has its
                 # remaining handlers cancelled by design (C10); everything else must have been delivered
                 if _dg.aborted_any(F, bus, ev) and not _dg.aborted_unrelated(F, ev):
@@ -289,8 +289,8 @@ def forward_reach(F: Facts, ev):
     """Forwarding model: (expected bus set, entry buses in order)."""
     typ = F.etype.get(ev)
     edges = collections.defaultdict(list)
-    for h in F.handlers:
-        if h.get('kind') == 'forward' and h.get('pattern', '*') in ('*', typ):
+    for hi, h in enumerate(F.handlers):
+        if h.get('kind') == 'forward' and h.get('pattern', '*') in ('*', typ) and hi in F.registered_at:
             edges[h['bus']].append(h['to'])
     entries = []
     for seq, t, actor, bus, e, outcome, hl in F.disps:
